@@ -398,7 +398,7 @@ def c15_case(rnd, cs, job, acc):
     text1 = gen.render(m)
     p1, _, _ = run(text1)
     d1, end1 = dates(p1), p1["end"]
-    rewrites = ["rename", "relref", "precedes", "shiftinline", "comments", "macros"]
+    rewrites = ["rename", "relref", "precedes", "shiftinline", "comments", "macros", "quotes"]
     chosen = [rnd.choice(rewrites)] if rnd.random() < 0.6 else rnd.sample(rewrites, rnd.randint(2, 4))
     if ties and "rename" not in chosen:
         chosen.append("rename")       # the order of the renamed ids differs from the order of the old ones
@@ -426,6 +426,13 @@ def c15_case(rnd, cs, job, acc):
     if "comments" in chosen:
         text2 = comment_rewrite(random.Random(cs + 4), text2)
         applied.append("comments")
+    if "quotes" in chosen:
+        # the grammar knows two string delimiters: "x" and 'x' are the same string
+        qr = random.Random(cs + 5)
+        text3 = re.sub(r'"([^"\'\n\\${}\[\]]*)"', lambda mo: ("'%s'" % mo.group(1)) if qr.random() < 0.6 else mo.group(0), text2)
+        if text3 != text2:
+            text2 = text3
+            applied.append("quotes")
     if not applied or text2 == text1:
         acc.count("skipped-no-rewrite-applicable")
         return
